@@ -29,6 +29,9 @@ TRUSTED = [
     'tools/emit_persistent.py templates: every Deque/Index method body is matched against a source template, the holes (guards, delegated calls with side/default/retry, exception translations, constructor settings, __getstate__, _make_compare) are compiled to Gen_Persistent.v and pinned by proofs/PersistentBridge.v',
     'the value encoding of the correspondence (Python values -> integers, equal values equal ids, order-preserving within numbers/str/bytes); comparisons of incomparable elements (TypeError on both sides) are not sent to the model',
     'value identity is Python == plus type() (recursively through tuples); the monitor does not look inside the stored bytes',
+    'contention: a raw sqlite3 connection executing BEGIN IMMEDIATE on the deque\'s cache.db stands for another client holding the write lock; it is '
+    'released (and re-taken) from a sched.Tracer hook on the BEGIN statements of the calling thread, the handle under test has SQLite timeout 0 so '
+    'that a busy BEGIN fails at once (Contention)',
 ]
 ASSUMPTIONS = [
     'the maxlen setter is given a non-negative integer (d.maxlen = None raises TypeError after storing None and leaves the handle unusable for append; outside the compared vocabulary, reported separately)',
@@ -36,6 +39,10 @@ ASSUMPTIONS = [
     'no other writer stores into the deque directory',
     'reopen uses the maxlen the handle had (maxlen is kept in the object and its pickle, not on disk)',
     'values are compared with Python ==; iterators are consumed immediately',
+    'a constructor whose iterable raises: the reference for the directory\'s contents is collections.deque(maxlen=m).extend(iterable), i.e. the items '
+    'consumed before the exception (Deque(iterable, directory) appends the items of its iterable to the deque stored in the directory)',
+    'contended histories contain no copy/pickle events (they build a handle with the default 60 s SQLite timeout, which would wait inside SQLite '
+    'for a lock that the same thread releases) and handle events are not contended (Cache.__init__ retries its settings statements by sleeping)',
     'concurrent clause: each Deque call is one atomic step (one write transaction of the underlying Cache, C05/C06); C11_exactly_once is stated over all interleavings of atomic append/popleft (appendleft/pop) calls with maxlen None; on every scheduled run the calls are linearised by their COMMITs and replayed through the model',
 ]
 
@@ -48,7 +55,7 @@ STREAMS = ['valid', 'malformed']
 CMP_OPS = ['eq', 'ne', 'lt', 'gt', 'le', 'ge']
 HANDLE_EVENTS = ('reopen', 'copy', 'pickle')
 MUTATING = {'append', 'appendleft', 'extend', 'extendleft', 'iadd', 'pop', 'popleft', 'setitem', 'delitem', 'rotate',
-            'reverse', 'remove', 'clear', 'set_maxlen'}
+            'reverse', 'remove', 'clear', 'set_maxlen', 'extend_failing', 'extendleft_failing', 'iadd_failing'}
 ADDING = {'append', 'appendleft', 'extend', 'extendleft', 'iadd'}
 INDEXED = {'getitem', 'setitem', 'delitem'}
 FILE_MIN = 8            # disk_min_file_size of the 'filebacked' kind
@@ -116,12 +123,17 @@ def _django_cache_class():
 
 
 class Handle:
-    def __init__(self, kind, directory, maxlen, init=()):
+    def __init__(self, kind, directory, maxlen, init=(), raw_init=False):
         self.kind = kind
         self.dir = directory
         self.maxlen = maxlen        # None | int: what the reference deque has
         self.closers = []
-        self.d = self._open(list(init))
+        try:
+            # raw_init: the iterable is handed to the constructor as it is (a generator that may raise part-way)
+            self.d = self._open(init if raw_init else list(init))
+        except BaseException:
+            self.close()
+            raise
 
     def _open(self, init):
         kind, m = self.kind, self.maxlen
@@ -129,8 +141,11 @@ class Handle:
             d = Deque(init, directory=self.dir, maxlen=m)
             self.closers.append(d.cache.close)
             return d
-        if kind == 'filebacked':
-            c = diskcache.Cache(self.dir, disk_min_file_size=FILE_MIN, eviction_policy='none')
+        if kind in ('filebacked', 'contended'):
+            # 'contended': the handle of a client that never waits inside SQLite (timeout 0), so that a busy write lock is
+            # seen at once; the Deque methods themselves must wait (retry) -- see Contention
+            kw = {'timeout': 0} if kind == 'contended' else {}
+            c = diskcache.Cache(self.dir, disk_min_file_size=FILE_MIN, eviction_policy='none', **kw)
             self.closers.append(c.close)
             return Deque.fromcache(c, init, maxlen=m)
         # FanoutCache.deque / DjangoCache.deque take no iterable: the initial items are extended right after creation,
@@ -146,7 +161,7 @@ class Handle:
         # FanoutCache.close() closes the shards and forgets its deques but does not close the deque's own Cache
         self.closers.append(d.cache.close)
         self.closers.append(parent.close)
-        if init:
+        if not isinstance(init, list) or init:
             d.extend(init)
         return d
 
@@ -179,7 +194,7 @@ class Handle:
         sub-directory; the parent uses the default Disk class, and Cache settings live in the Settings table).
         filebacked: copy() would build Cache(directory, eviction_policy='none') without the explicit settings of the
         fromcache handle, so the equivalent Deque.fromcache on a new Cache of the same directory is used instead."""
-        if self.kind == 'filebacked':
+        if self.kind in ('filebacked', 'contended'):
             self._swap(lambda: self._open([]))
             return self.d.maxlen
         old = self.d
@@ -213,6 +228,112 @@ class Handle:
                 pass
 
 
+class Boom(Exception):
+    """An exception of the caller's own, raised by a source iterable part-way."""
+
+
+FAIL_EXC = {'Boom': Boom, 'ZeroDivisionError': ZeroDivisionError, 'KeyError': KeyError}
+FAILING = {'extend_failing': 'extend', 'extendleft_failing': 'extendleft', 'iadd_failing': 'iadd'}
+
+
+def failing(values, k, exc):
+    """An iterable that yields values[:k] and then raises exc (k == len(values): after the last item)."""
+    for i, v in enumerate(values):
+        if i == k:
+            raise FAIL_EXC[exc]('source iterable failed after %d item(s)' % k)
+        yield v
+    if k >= len(values):
+        raise FAIL_EXC[exc]('source iterable failed after %d item(s)' % len(values))
+
+
+class Contention:
+    """Another client of the deque directory that holds the write lock while a call of the handle under test runs.
+
+    The handle under test is opened with SQLite timeout 0 (kind 'contended'), so a BEGIN IMMEDIATE that meets the lock fails
+    at once; every such attempt is an event of sched.Tracer, and the hook releases the lock just before the (k+1)-th
+    attempt of the call (k attempts fail).  `again` = (gap, k2): the lock is taken once more `gap` BEGINs later (between two
+    transactions of a multi-transaction call) and released after k2 further failed attempts.  Everything happens in one
+    thread, deterministically.  Calls that need no write transaction run with the lock held throughout."""
+
+    BUDGET = 3000
+
+    def __init__(self):
+        self.tracer = sched.Tracer(before=self._before)
+        self.con = None
+        self.held = False
+        self.n = 0
+        self.release_at = None
+        self.takes = {}
+        self.failed = 0
+        self.total_failed = 0
+        self.calls = 0
+        self.calls_that_waited = 0
+        self.gave_up = False
+
+    def __enter__(self):
+        self.tracer.__enter__()
+        return self
+
+    def __exit__(self, *a):
+        self.stop()
+        self.tracer.__exit__(*a)
+
+    def attach(self, directory):
+        import os
+        import sqlite3
+        self.con = sqlite3.connect(os.path.join(directory, 'cache.db'), timeout=0, isolation_level=None)
+
+    def stop(self):
+        self._release()
+        if self.con is not None:
+            self.con.close()
+            self.con = None
+
+    def _take(self):
+        if not self.held:
+            try:
+                self.con.execute('BEGIN IMMEDIATE')
+            except Exception:
+                return      # the handle under test is inside a transaction of its own right now: this client has to wait
+            self.held = True
+
+    def _release(self):
+        if self.held:
+            self.con.execute('ROLLBACK')
+            self.held = False
+
+    def _before(self, ev):
+        if ev.kind != 'sql' or ev.what != 'BEGIN':
+            return
+        self.n += 1
+        if self.held and self.release_at is not None and self.n >= self.release_at:
+            self._release()
+        elif not self.held and self.n in self.takes:
+            self._take()
+            self.release_at = self.n + self.takes.pop(self.n)
+        if self.held:
+            self.failed += 1
+            if self.failed > self.BUDGET:
+                self.gave_up = True
+                self._release()
+
+    def call(self, k, again, fn):
+        """Run fn() with the lock held from the start until its (k+1)-th BEGIN."""
+        self.n, self.failed, self.gave_up = 0, 0, False
+        self.release_at = k + 1
+        self.takes = {k + 1 + again[0]: again[1]} if again else {}
+        self._take()
+        self.tracer.enable(True)
+        try:
+            return fn()
+        finally:
+            self.tracer.enable(False)
+            self._release()
+            self.calls += 1
+            self.total_failed += self.failed
+            self.calls_that_waited += 1 if self.failed else 0
+
+
 def attr_maxlen(m):
     """What Deque.maxlen reports for the reference maxlen m."""
     return float('inf') if m is None else m
@@ -244,6 +365,12 @@ def apply_ref(r, op, args):
             q.extendleft(list(args[0]))
         elif op == 'iadd':
             q += list(args[0])
+        elif op == 'extend_failing':
+            q.extend(failing(*args))
+        elif op == 'extendleft_failing':
+            q.extendleft(failing(*args))
+        elif op == 'iadd_failing':
+            q += failing(*args)
         elif op == 'pop':
             return ('val', q.pop())
         elif op == 'popleft':
@@ -316,6 +443,12 @@ def apply_impl(h, op, args):
             d += list(args[0])
             if d is not h.d:
                 return ('val', d), None
+        elif op == 'extend_failing':
+            d.extend(failing(*args))
+        elif op == 'extendleft_failing':
+            d.extendleft(failing(*args))
+        elif op == 'iadd_failing':
+            d += failing(*args)
         elif op == 'pop':
             return ('val', d.pop()), None
         elif op == 'popleft':
@@ -424,14 +557,36 @@ def run_history(spec, ops, mkdir, stats=None, res=None):
     hist = {'id': spec.get('id', 0), 'kind': kind, 'stream': spec.get('stream', 'valid'), 'maxlen': maxlen,
             'init': list(init), 'events': []}
     directory = mkdir()
-    r = Ref(init, maxlen)
+    # init_fail = [k, exception name]: the initial iterable raises after k items.  The constructor appends the items of its
+    # iterable to the deque of that directory, so what a handle opened afterwards must hold is what collections.deque holds
+    # after extend() with the same iterable: the k items consumed (the last maxlen of them).
+    init_fail = spec.get('init_fail')
+    r = Ref(init if init_fail is None else init[:init_fail[0]], maxlen)
     h = None
     div = None
+    cont = Contention() if spec.get('contend') else None
     try:
-        h = Handle(kind, directory, maxlen, init)
+        if cont is not None:
+            cont.__enter__()
+        if init_fail is not None:
+            try:
+                Handle(kind, directory, maxlen, failing(init, init_fail[0], init_fail[1]), raw_init=True).close()
+                obs0 = ('none',)
+            except Exception as e:
+                obs0 = _raise(e)
+            if obs0 != ('raise', init_fail[1]):
+                div = {'index': -1, 'sig': 'deque_result_init_failing', 'desc': 'construction from an iterable that raises %s after %d item(s)'
+                       % (init_fail[1], init_fail[0]), 'expected': show_res(('raise', init_fail[1])), 'observed': show_res(obs0)}
+            h = Handle(kind, directory, maxlen, [])
+        else:
+            h = Handle(kind, directory, maxlen, init)
+        if cont is not None:
+            cont.attach(h.d.directory)
         first = list(h.d)
-        if not same_typed_list(first, list(r.q)):
-            div = {'index': -1, 'sig': 'deque_contents_init', 'desc': 'contents after construction from the initial iterable',
+        if div is None and not same_typed_list(first, list(r.q)):
+            div = {'index': -1, 'sig': 'deque_contents_init' + ('_failing' if init_fail is not None else ''),
+                   'desc': 'contents after construction from the initial iterable' +
+                           ('' if init_fail is None else ' that raised %s after %d item(s)' % (init_fail[1], init_fail[0])),
                    'expected': repr(list(r.q)), 'observed': repr(first)}
         if div is None and kind == 'plain' and h.d.cache.eviction_policy != 'none':
             div = {'index': -1, 'sig': 'deque_contents_init', 'desc': 'a plain Deque must use eviction_policy none',
@@ -444,7 +599,14 @@ def run_history(spec, ops, mkdir, stats=None, res=None):
             len_before = len(r.q)
             ref_maxlen = r.q.maxlen
             exp = apply_ref(r, op, args)
-            obs, note = apply_impl(h, op, args)
+            if cont is not None and op not in HANDLE_EVENTS:
+                k, again = spec['contend'][i % len(spec['contend'])]
+                obs, note = cont.call(k, again, lambda: apply_impl(h, op, args))
+                if cont.gave_up:
+                    div = {'index': i, 'sig': 'deque_never_returns_' + op, 'desc': '%s was still retrying after %d failed BEGIN attempts '
+                           'although the lock was to be released after %d' % (op, cont.BUDGET, k), 'expected': show_res(exp), 'observed': 'spinning'}
+            else:
+                obs, note = apply_impl(h, op, args)
             try:
                 contents = list(h.d)
                 cerr = None
@@ -461,6 +623,8 @@ def run_history(spec, ops, mkdir, stats=None, res=None):
             if res is not None:
                 res.count(['seq', kind, spec.get('stream'), repr(maxlen), op, repr(norm_args(op, args)), len_before],
                           nontrivial=(len_before > 0 or op in MUTATING))
+            if div is not None:
+                break
             agree, type_only = results_agree(exp, obs)
             if op in HANDLE_EVENTS:
                 if not agree or note is not None:
@@ -487,9 +651,20 @@ def run_history(spec, ops, mkdir, stats=None, res=None):
                                 'contents after %s differ from collections.deque') % op,
                        'expected': repr(want), 'observed': repr(contents)}
     finally:
+        if cont is not None:
+            cont.__exit__(None, None, None)
+            if stats is not None:
+                stats['contended_calls'] = stats.get('contended_calls', 0) + cont.calls
+                stats['contended_calls_that_waited'] = stats.get('contended_calls_that_waited', 0) + cont.calls_that_waited
+                stats['contended_failed_begin_attempts'] = stats.get('contended_failed_begin_attempts', 0) + cont.total_failed
         if h is not None:
             h.close()
         shutil.rmtree(directory, ignore_errors=True)
+    if div is not None and cont is not None and not div['sig'].startswith('deque_contended_'):
+        # the same comparison with collections.deque, made while another client held the write lock
+        div['sig'] = 'deque_contended_' + div['sig'][len('deque_'):]
+        div['desc'] += ' (another client held the write lock of the deque when the call started and released it after %r failed attempt(s))' % (
+            spec['contend'][div['index'] % len(spec['contend'])][0] if div['index'] >= 0 else 0,)
     return hist, div
 
 
@@ -502,6 +677,11 @@ def new_stats():
 
 
 def account(stats, spec, op, args, exp, len_before, ref_maxlen):
+    if op in FAILING:
+        stats['failing_iterables'] = stats.get('failing_iterables', 0) + 1
+        if ref_maxlen is not None and len_before + args[1] > ref_maxlen:
+            stats['failing_iterables_displacing'] = stats.get('failing_iterables_displacing', 0) + 1
+        op, args = FAILING[op], [args[0][:args[1]]]
     stats['ops'] += 1
     stats['op_histogram'][op] = stats['op_histogram'].get(op, 0) + 1
     if exp[0] == 'raise':
@@ -545,7 +725,7 @@ def pick_maxlen(rng):
 
 
 def pick_value(rng, kind):
-    if kind == 'filebacked' and rng.random() < 0.3:
+    if kind in ('filebacked', 'contended') and rng.random() < 0.3:
         return rng.choice(LONG_VALUES)
     return rng.choice(VALUES)
 
@@ -697,6 +877,7 @@ def case_of(spec, ops, div):
             'init': [repr(v) for v in spec['init']],
             'ops': [[op, [repr(a) for a in args]] for op, args in ops],
             'failing_op': (ops[div['index']][0] if 0 <= div['index'] < len(ops) else 'init'),
+            'init_fail': spec.get('init_fail'), 'contend': spec.get('contend'),
             'sig': div['sig'], 'expected': div['expected'], 'observed': div['observed']}
 
 
@@ -724,11 +905,12 @@ def shrink(spec, ops, div, mkdir, budget=160):
             ops, div = ops[-1:], d2
     if len(ops) > 1:
         # 2. replace the prefix by its effect: a deque constructed from the contents (and maxlen) reached before the last op
-        r = Ref(spec['init'], spec['maxlen'])
+        r = Ref(spec['init'] if not spec.get('init_fail') else spec['init'][:spec['init_fail'][0]], spec['maxlen'])
         for op, args in ops[:-1]:
             apply_ref(r, op, args)
         s2 = dict(spec)
         s2['init'], s2['maxlen'] = list(r.q), r.q.maxlen
+        s2.pop('init_fail', None)
         runs += 1
         d2 = diverges_at_end(s2, ops[-1:], sig, mkdir)
         if d2 is not None:
@@ -809,7 +991,64 @@ def sequential(ctx, res, nhist, stats, histories, first_id=0):
                                          for e in hist['events'][:6]]}, limit=3)
 
 
+def gen_failing_history(rng, hid, kind):
+    """A short history in which extend / extendleft / += (and, where the kind has one, the constructor) are given a source
+    iterable that raises after k of its n items (k = 0..n), followed by reads, reopen events and ordinary calls."""
+    maxlen = rng.choice([None, None, 0, 1, 2, 3, 5])
+    init = pick_values(rng, kind, 0, 5)
+    spec = {'id': hid, 'kind': kind, 'stream': 'failing', 'maxlen': maxlen, 'init': init}
+    if kind in ('plain', 'filebacked') and rng.random() < 0.4:
+        spec['init_fail'] = [rng.randint(0, len(init)), rng.choice(sorted(FAIL_EXC))]
+        init = init[:spec['init_fail'][0]]
+    r = Ref(init, maxlen)
+    ops = []
+    for _ in range(rng.randint(3, 10)):
+        x = rng.random()
+        if x < 0.5:
+            vals = pick_values(rng, kind, 0, 5)
+            ops.append((rng.choice(sorted(FAILING)), [vals, rng.randint(0, len(vals)), rng.choice(sorted(FAIL_EXC))]))
+            if rng.random() < 0.5:
+                ops.append((rng.choice(['reopen', 'reopen', 'pickle', 'copy']), []))
+        elif x < 0.6:
+            ops.append(('reopen', []))
+        else:
+            ops.append(gen_op(rng, r.q, kind, 'valid'))
+    for op, args in ops:
+        apply_ref(r, op, args)
+    return spec, ops
+
+
+def gen_contended_history(rng, hid):
+    """A valid-stream history for a handle with SQLite timeout 0; spec['contend'] gives, per call (cyclically), the number of
+    BEGIN attempts that fail before the other client lets the lock go, and optionally a second episode later in the call."""
+    spec, ops = gen_history(rng, hid, 'contended', 'valid')
+    # copy / pickle build a Deque with the default 60 s SQLite timeout: not a handle that can be contended in one thread
+    ops = [(('reopen', []) if op in ('copy', 'pickle') else (op, args)) for op, args in ops]
+    spec['stream'] = 'contended'
+    spec['contend'] = [[rng.choice([1, 1, 2, 3]), (None if rng.random() < 0.6 else [rng.choice([1, 2]), rng.choice([1, 2])])]
+                       for _ in range(7)]
+    return spec, ops
+
+
+def extra_histories(ctx, res, stats, nfailing, ncontended, first_id=200000):
+    """Monitor-only histories (not sent to the Coq model): failing source iterables; calls made while another client holds
+    the write lock."""
+    mkdir = lambda: ctx.scratch('c11x')        # noqa: E731
+    plan = [('failing', KINDS[k % len(KINDS)]) for k in range(nfailing)] + [('contended', 'contended')] * ncontended
+    for k, (what, kind) in enumerate(plan):
+        hid = first_id + k
+        spec, ops = gen_failing_history(ctx.rng, hid, kind) if what == 'failing' else gen_contended_history(ctx.rng, hid)
+        hist, div = run_history(spec, ops, mkdir, stats=stats, res=res)
+        stats['histories_' + what] = stats.get('histories_' + what, 0) + 1
+        if div is not None:
+            report_divergence(res, stats, spec, ops, div, mkdir)
+
+
 def publish_stats(res, stats):
+    for k in ('histories_failing', 'histories_contended', 'failing_iterables', 'failing_iterables_displacing', 'contended_calls',
+              'contended_calls_that_waited', 'contended_failed_begin_attempts'):
+        if k in stats:
+            res.extra[k] = stats[k]
     stats['histories_crossing_maxlen'] = len(stats['crossed'])
     for k in ('op_histogram', 'histories', 'histories_crossing_maxlen', 'histories_with_reopen', 'histories_with_pickle',
               'histories_with_copy', 'histories_by_kind', 'histories_by_stream', 'filebacked_values_stored',
@@ -1340,7 +1579,13 @@ RULE = ('differential histories of 10-40 calls (valid and malformed streams; max
         'producer/consumer programs on 2-3 connections under random schedules of the deterministic scheduler with exact '
         'accounting of appended/popped/remaining items.  evaluation = one executed call or one scheduled run; non-trivial = '
         'the deque is non-empty or the call mutates / at least one item was popped; distinct = distinct (kind, stream, maxlen, '
-        'op, args, length before) or distinct schedule.')
+        'op, args, length before) or distinct schedule.  Failing sources (monitor only): histories of 3-10 calls on every kind in which extend / '
+        'extendleft / += -- and, for plain and fromcache deques, the constructor -- are given an iterable of n = 0..5 inline and file-backed values '
+        'that raises after k = 0..n items (three exception classes), maxlen None/0/1/2/3/5, followed by reads and reopen/copy/pickle events: '
+        'collections.deque keeps (and lets displace) every item consumed before the exception.  Contention (monitor only): valid-stream histories on '
+        'Deque.fromcache(Cache(dir, timeout=0)); every call starts while a second connection holds the write lock, which is released just before the '
+        'call\'s (k+1)-th BEGIN attempt (k = 1..3, sometimes taken again between two transactions of the call): every method must wait and return what '
+        'collections.deque returns, never Timeout.')
 
 
 def bounded_concurrent(ctx, res, nrandom):
@@ -1417,6 +1662,7 @@ def run(ctx):
     stats = new_stats()
     histories = []
     sequential(ctx, res, 250 if ctx.quick else 2500, stats, histories)
+    extra_histories(ctx, res, stats, 80 if ctx.quick else 800, 40 if ctx.quick else 400)
     publish_stats(res, stats)
     correspondence(ctx, res, histories, 7000 if ctx.quick else 100000)
     concurrent(ctx, res, 40 if ctx.quick else 400)
@@ -1429,6 +1675,7 @@ def search(ctx, broken):
     stats = new_stats()
     histories = []
     sequential(ctx, res, 750, stats, histories, first_id=100000)
+    extra_histories(ctx, res, stats, 240, 120, first_id=300000)
     concurrent(ctx, res, 120)
     bounded_concurrent(ctx, res, 400)
     return res
@@ -1448,6 +1695,11 @@ def replay(payload):
     if check in ('deque_history', 'deque_model'):
         spec = {'id': 0, 'kind': case['kind'], 'stream': case.get('stream') or 'valid', 'maxlen': case['maxlen'],
                 'init': [unrepr(x) for x in case['init']]}
+        if case.get('init_fail'):
+            spec['init_fail'] = case['init_fail']
+        if case.get('contend'):
+            spec['contend'] = case['contend']
+            print('every call below runs while another connection holds the write lock (released after k failed BEGIN attempts; [k, again]): %r' % (case['contend'],))
         ops = [(op, [unrepr(a) for a in args]) for op, args in case['ops']]
         hist, div = run_history(spec, ops, lambda: tempfile.mkdtemp(prefix='c11r-'))
         print('Deque kind=%s maxlen=%r init=%r' % (spec['kind'], spec['maxlen'], spec['init']))
